@@ -36,6 +36,10 @@ def pivot():
                       serialize_all="snake_case", note="disabled variant, serialize_all"))
     S.append(EnumSpec("CiTwoCases", [U("Red", serialize=["Red", "red"], aci=True), U("Go", serialize=["GO", "go", "Go"])], derives=d,
                       std_derives=std, aci=True, note="two spellings of one case-insensitive variant that differ only in case"))
+    S.append(EnumSpec("MixLower", [U("Alpha", aci=True, aci_bare=True), U("Beta", serialize=["beta"]), U("DarkGreen", serialize=["dark-green"]), U("Gam", serialize=["GAM"])],
+                      derives=d, std_derives=std, note="one case-insensitive variant next to case-sensitive variants whose spellings are all-lowercase / all-uppercase"))
+    S.append(EnumSpec("ShortTs", [U("Xl", to_string="xl", serialize=["extra-large"]), U("S", to_string="s"), U("Medium", serialize=["m", "medium"])],
+                      derives=d, std_derives=std, note="a short to_string next to a much longer serialize alias (the preferred name is NOT the longest spelling)"))
     S.append(EnumSpec("OnlyCi", [U("K", serialize=["k"], aci=True), U("S1", serialize=["s1"], aci=True)], derives=d, std_derives=std,
                       note="single-letter lowercase case-insensitive spellings (Kelvin sign / long s look-alikes in range)"))
     return S
